@@ -168,13 +168,18 @@ def judge_angdiff(ctx, a, b, out, etype=None):
 def run_trnorm(ctx, p):
     b = B()
     T = np.asarray(p['T'], dtype=np.float64)
+    given = T
+    if p.get('float32'):
+        # a single-precision matrix (from a sensor driver, a file): a member perturbed by about 6e-8, well inside the stated noise
+        given = T.astype(np.float32)
+        T = given.astype(np.float64)
     try:
-        out = b.trnorm(T)
+        out = b.trnorm(given)
         again = b.trnorm(out)
     except Exception as e:
-        ctx.bad('trnorm', dict(api='base.trnorm', kind='raised', exc=type(e).__name__), 'trnorm raised %r for %s' % (e, core.short(T, 300)))
+        ctx.bad('trnorm', dict(api='base.trnorm', kind='raised', exc=type(e).__name__, float32=bool(p.get('float32'))), 'trnorm raised %r for %s' % (e, core.short(T, 300)))
         return
-    judge_trnorm(ctx, 'base.trnorm', T, out, again)
+    judge_trnorm(ctx, 'base.trnorm' + (' (float32 input)' if p.get('float32') else ''), T, np.asarray(out, dtype=np.float64), np.asarray(again, dtype=np.float64))
 
 
 def run_pose_norm(ctx, p):
@@ -182,8 +187,12 @@ def run_pose_norm(ctx, p):
     c = p['cls']
     Ts = [np.asarray(T, dtype=np.float64) for T in p['T']]
     C = getattr(sm, c)
+    given = Ts
+    if p.get('float32'):
+        given = [T.astype(np.float32) for T in Ts]
+        Ts = [T.astype(np.float64) for T in given]
     try:
-        X = C(Ts if len(Ts) > 1 else Ts[0], check=False)
+        X = C(given if len(given) > 1 else given[0], check=False)
         Y = X.norm()
         Z = Y.norm()
     except Exception as e:
@@ -407,12 +416,17 @@ def run(ctx):
     for _ in range(ctx.scale(1500, 30000)):
         T = gen.se3(rng, hi=1e3) if rng.random() < 0.5 else gen.so3(rng)
         drive(RUNNERS, ctx, 'trnorm', dict(T=perturb(rng, T, 3)))
+        if rng.random() < 0.1:
+            drive(RUNNERS, ctx, 'trnorm', dict(T=gen.se3(rng, hi=1e3) if rng.random() < 0.5 else gen.so3(rng), float32=True))
     for _ in range(ctx.scale(1200, 20000)):
         c = ['SO2', 'SE2', 'SO3', 'SE3'][rng.integers(4)]
         m = int(rng.integers(1, 4))
         mk = {'SO2': lambda: perturb(rng, gen.so2(rng), 2), 'SE2': lambda: perturb(rng, gen.se2(rng, hi=1e3), 2),
               'SO3': lambda: perturb(rng, gen.so3(rng), 3), 'SE3': lambda: perturb(rng, gen.se3(rng, hi=1e3), 3)}[c]
         drive(RUNNERS, ctx, 'pose_norm', dict(cls=c, T=[mk() for _ in range(m)]))
+        if rng.random() < 0.1:
+            clean = {'SO2': lambda: gen.so2(rng), 'SE2': lambda: gen.se2(rng, hi=1e3), 'SO3': lambda: gen.so3(rng), 'SE3': lambda: gen.se3(rng, hi=1e3)}[c]
+            drive(RUNNERS, ctx, 'pose_norm', dict(cls=c, T=[clean() for _ in range(m)], float32=True))
     for _ in range(ctx.scale(3500, 60000)):
         api = ['base.unitvec', 'base.unitvec_norm', 'base.unit', 'Quaternion.unit', 'UnitQuaternion.ctor', 'Quaternion.unit.multi', 'UnitQuaternion.unit'][rng.integers(7)]
         n = 4 if api not in ('base.unitvec', 'base.unitvec_norm') else int([1, 2, 3, 6][rng.integers(4)])
